@@ -8,7 +8,7 @@
 
     Definitions only (proofs are in Proofs/PeatclsmSpec.v).  Layers and levels
     are indexed by Z so that generated case files can write literal indices. *)
-From Coq Require Import Reals List ZArith.
+From Coq Require Import Reals List ZArith QArith Qreals.
 From Coquelicot Require Import Coquelicot.
 From Spowtd Require Import Model.Util Model.Transm.
 Import ListNotations.
@@ -131,3 +131,20 @@ Definition sy_knot_tab (Th Phi : Z -> R) (N : nat) (i : Z) : R :=
 
 Definition offsets (N : nat) : list Z :=
   map (fun n => (Z.of_nat n - Z.of_nat N)%Z) (seq 0 (2 * N)).
+
+(** Exact rational evaluation of the tabulated form (tables with rational
+    entries): what the generated case files run by vm_compute. *)
+Definition layer_tabQ (Th Phi : Z -> Q) (i j : Z) : Q :=
+  Qred ((1 # 100) * ((1 - Phi j) * Th (i - j)%Z - (1 - Phi j) * Th (i - j - 1)%Z))%Q.
+
+Definition sumQ (l : list Q) : Q := fold_right (fun x a => Qred (x + a)%Q) 0%Q l.
+
+Definition sy_knot_tabQ (Th Phi : Z -> Q) (N : nat) (i : Z) : Q :=
+  (100 * sumQ (map (layer_tabQ Th Phi i) (layers N)) + Phi i)%Q.
+
+(** Acceptance test of one case: the value computed from the tables is within
+    tol - eps (1 + N theta_s) - 2 N eta M of the implementation's value v. *)
+Definition knot_checkQ (Th Phi : Z -> Q) (N : nat) (i : Z) (eps eta M ths v tol : Q) : bool :=
+  let x := sy_knot_tabQ Th Phi N i in
+  let slack := (tol - eps * (1 + inject_Z (Z.of_nat N) * ths) - 2 * inject_Z (Z.of_nat N) * eta * M)%Q in
+  Qle_bool (x - v)%Q slack && Qle_bool (v - x)%Q slack.
